@@ -242,6 +242,9 @@ pub struct BFault {
     pub persistent: AtomicBool,
     pub wrong_len: AtomicUsize,
     pub fired: AtomicUsize,
+    /// busy-loop unit per closure call (schedule jitter for the parallel flavour), scaled by a
+    /// per-call pseudo-random factor 0..6
+    pub burn: AtomicUsize,
 }
 impl BFault {
     pub fn new() -> Arc<BFault> {
@@ -251,6 +254,7 @@ impl BFault {
             persistent: AtomicBool::new(false),
             wrong_len: AtomicUsize::new(0),
             fired: AtomicUsize::new(0),
+            burn: AtomicUsize::new(0),
         })
     }
     pub fn arm(&self, break_at: usize, persistent: bool, wrong_len: usize) {
@@ -260,6 +264,10 @@ impl BFault {
     }
     fn tick(&self) -> Option<usize> {
         let idx = self.calls.fetch_add(1, SeqCst);
+        let burn = self.burn.load(SeqCst);
+        if burn > 0 {
+            burn_cpu(burn * ((idx as u64).wrapping_mul(0x9e37_79b9_7f4a_7c15) >> 61) as usize);
+        }
         let b = self.break_at.load(SeqCst);
         let fail = b != NEVER && if self.persistent.load(SeqCst) { idx >= b } else { idx == b };
         if fail {
